@@ -121,12 +121,51 @@ def nontrivial(case, go, mo):
     return "$" in str(case["steps"])
 
 
+def anchored_required_cases(rng, n):
+    """layer FILES: a YAML base whose `$required`-carrying container sits under an anchor and is aliased at further places, and an
+    upper layer that supplies the value at some of the places only - every other place still demands it"""
+    import fscheck
+    out = []
+    for _ in range(n):
+        sub = rng.choice([{"x": "$required", "y": 1}, {"x": "$required"}, [{"name": "n", "v": "$required"}], {"in": {"x": "$required"}, "k": "v"},
+                          {"x": "$required", "l": [1, 2]}])
+        sites = rng.sample(["a", "b", "c", "d"], rng.randint(2, 3))
+        base = {k: sub for k in sites}
+        base["other"] = rng.choice([1, "s", {"q": 1}])
+        if rng.random() < 0.3:
+            base["deep"] = {"w": sub}
+            sites = sites + ["deep"]
+
+        def fill(v):
+            if isinstance(v, dict):
+                return {k: (5 if x == "$required" else fill(x)) for k, x in v.items() if x == "$required" or isinstance(x, (dict, list))}
+            if isinstance(v, list):
+                return [{"$match": {"name": "n"}, "v": 5}]
+            return v
+        how = rng.random()
+        chosen = sites if how < 0.15 else [] if how < 0.25 else rng.sample(sites, rng.randint(1, len(sites) - 1))
+        upper = {k: ({"w": fill(sub)} if k == "deep" else fill(sub)) for k in chosen}
+        layers = [base] + ([{"mid": 1}] if rng.random() < 0.3 else []) + [upper or {"other": 2}]
+        layout, top = fscheck.chain_layout(rng, layers, exts=("yaml", "yml"), share=True)
+        out.append({"layout": layout, "opts": {"inputs": [top], "format": "json"},
+                    "meta": {"kind": "anchored-required:" + ("all" if len(chosen) == len(sites) else "none" if not chosen else "some")}})
+    return out
+
+
 def run(rep):
     standard_run(rep, PID, gen_case, nontrivial, "marker handling differs", 4000, 200000,
                  "1-3 layer chains with $required sprinkled over map values/list entries and directive-shaped keys/strings "
                  "(known, unknown, misspelt, misplaced) injected anywhere, incl. under $output:false and inside $encode subtrees; "
                  "non-trivial = contains a $ string", oracle=oracle, extra_gens=[small_scope(PID)])
+    if len(rep.violations) < 5:
+        import random
+        import fscheck
+        fscheck.file_chain_stage(rep, anchored_required_cases(random.Random(rep.seed + 77), 120 if rep.tier == "quick" else 3000),
+                                 "layer files with anchored $required containers")
 
 
 def replay(rep, payload):
+    if "filechain" in payload.get("case", {}):
+        import fscheck
+        return fscheck.file_chain_replay(payload["case"]["filechain"])
     return standard_replay(payload, oracle=oracle)
